@@ -332,7 +332,13 @@ Age(o) == [v |-> o.v, m |-> IF o.m > 0 THEN o.m - 1 ELSE 0]
 
 \* a block confirming the whole pool: pool-spent outputs disappear, pool-made outputs become
 \* owned and mature, immature outputs age by one block
+\* (A block is only mined while no v2 transaction still with its caller spends an output of a
+\* transaction that is not in the pool any more (a v1 parent lost in a restart): after a block
+\* that leaves such a parent unconfirmed chain.Manager can never rebase the child, see Reward.)
+DanglingV2 == \E t, u \in TxIds : /\ txs[t].ver = 2 /\ txs[t].st # "pool" /\ txs[u].st # "pool"
+                                   /\ txs[t].ins \cap Ids(txs[u].made) # {}
 Mine ==
+    /\ ~DanglingV2
     /\ LET keep == DOMAIN owned \ PoolSpent
            new == PoolMade
            own2 == [i \in keep \cup Ids(new) |->
